@@ -28,6 +28,7 @@ func init() {
 			"R3 refusal: every function with constant accesses to a []byte parameter has a length guard covering its largest bound (unexported functions: every call site passes a constant-width slice of sufficient width); narrowing integer conversions in writers are preceded by a range check of the source that returns an error. " +
 			"R4 stream codecs: for every type with a Marshal/Unmarshal (or MarshalToBytes/UnmarshalFromBytes) pair the ordered field sequences agree; fixed-size HOB writers return the sum of the static sizes of what they write. " +
 			"R5 read counts: every io.Reader.Read call in eventlog and ovmf/abi has its count compared with the requested length (or is io.ReadFull). " +
+			"R13 (ESP) a function of the stream codec packages does not return nil on a path on which one of its fallible steps failed (steps whose error is compared with io.EOF aside). " +
 			"R12 a …FromBytes decoder that reads its input through a bytes reader returns success only after draining it (io.ReadAll or Len() == 0). " +
 			"R11 a stream decoder accepts io.EOF as the end of input only when it comes from a primitive read made directly in that function (the first bytes of the next record), never from a multi-field decoder. " +
 			"R10 no decoder of the stream codec packages calls Reader.Read directly; fixed-size fields are read with io.ReadFull / binary.Read / io.ReadAll. " +
@@ -704,6 +705,137 @@ func runC18(c *Ctx) {
 			}
 		}
 		c.S.Floor("R11", "places where a stream decoder accepts io.EOF as the end of input", 1, nEOF)
+	}
+
+	// ---------------- R13 a failed step fails the codec function ----------------
+	// In the stream codec packages, a function that returns an error does not return nil on a path on which one of
+	// its fallible steps (a call whose last result is an error) failed — except a step whose error the function
+	// compares with io.EOF (R11 decides those). A shared helper that loses the error of a nested encoder
+	// (`if err := m.Marshal(w); err != nil { err = … }; return err` with a shadowed err) makes every refusal
+	// downstream — an over-long string, a digest of the wrong length — a silent success with malformed bytes.
+	{
+		nFn, nSteps := 0, 0
+		isEOFLoad := func(v ssa.Value) bool {
+			ld, ok := v.(*ssa.UnOp)
+			if !ok || ld.Op != token.MUL {
+				return false
+			}
+			g, ok := ld.X.(*ssa.Global)
+			return ok && g.Pkg != nil && g.Pkg.Pkg.Path() == "io" && g.Name() == "EOF"
+		}
+		eofTested := func(call ssa.CallInstruction) bool {
+			v := call.Value()
+			if v == nil {
+				return false
+			}
+			var errs []ssa.Value
+			if _, isTuple := v.Type().(*types.Tuple); isTuple {
+				for _, r := range nonDebugRefs(v) {
+					if ex, ok := r.(*ssa.Extract); ok && ex.Index == errIndex(call.Common().Signature()) {
+						errs = append(errs, ex)
+					}
+				}
+			} else {
+				errs = append(errs, v)
+			}
+			for _, ev := range errs {
+				for _, r := range nonDebugRefs(ev) {
+					switch u := r.(type) {
+					case *ssa.BinOp:
+						if isEOFLoad(u.X) || isEOFLoad(u.Y) {
+							return true
+						}
+					case *ssa.Call:
+						if cal := u.Call.StaticCallee(); cal != nil && cal.String() == "errors.Is" {
+							return true
+						}
+					}
+				}
+			}
+			return false
+		}
+		for _, f := range c.P.RepoFunctions() {
+			switch load.RelPkg(f) {
+			case "eventlog", "extract/eventlog":
+			default:
+				continue
+			}
+			if c.isTestFunc(f) || f.Blocks == nil || errIndex(f.Signature) < 0 {
+				continue
+			}
+			steps := callsIn(f, func(call ssa.CallInstruction) bool {
+				if _, isDefer := call.(*ssa.Defer); isDefer {
+					return false
+				}
+				if _, isB := call.Common().Value.(*ssa.Builtin); isB {
+					return false
+				}
+				return errIndex(call.Common().Signature()) >= 0 && !eofTested(call) && !errDiscarded(call)
+			})
+			// errors thrown away on purpose: only of callees that cannot fail on what they are given here
+			for _, call := range callsIn(f, func(call ssa.CallInstruction) bool {
+				if _, isDefer := call.(*ssa.Defer); isDefer {
+					return false
+				}
+				if _, isB := call.Common().Value.(*ssa.Builtin); isB {
+					return false
+				}
+				return errIndex(call.Common().Signature()) >= 0 && errDiscarded(call)
+			}) {
+				why := ""
+				cal := call.Common().StaticCallee()
+				args := call.Common().Args
+				switch {
+				case cal != nil && load.RelPkg(cal) == "ovmf/abi" && (cal.Name() == "FromEFIGUID" || cal.Name() == "PutUUID") && len(args) > 0 && fixedWidth(args[0]) == 16:
+					why = cal.Name() + " fails on length alone and is given exactly 16 bytes"
+				case cal != nil && cal.String() == "io.ReadAll" && len(args) == 1 && inMemoryReader(args[0]):
+					why = "io.ReadAll over an in-memory reader cannot fail"
+				case cal != nil && cal.Pkg != nil && (cal.Pkg.Pkg.Path() == "fmt" || cal.Pkg.Pkg.Path() == "bytes" || cal.Pkg.Pkg.Path() == "strings"):
+					why = "writes to an in-memory buffer / formatted output"
+				}
+				c.S.Check(why != "", "R13", load.FuncName(f)+":discarded error of "+callName(call), c.pos(call.Pos()), "infallible here: "+why, "the error of "+callName(call)+" is thrown away and the callee can fail on this operand: a malformed value is encoded / a short input decoded as if nothing had happened")
+			}
+			if len(steps) == 0 {
+				continue
+			}
+			nFn++
+			isStep := map[ssa.Instruction]bool{}
+			for _, st := range steps {
+				isStep[st.(ssa.Instruction)] = true
+			}
+			const bFailed uint = 0
+			r := &esp.Rule{Name: "C18.R13"}
+			r.Relevant = func(*ssa.Function) bool { return false }
+			r.Match = func(in ssa.Instruction) []esp.Ev {
+				if !isStep[in] {
+					return nil
+				}
+				nSteps++
+				call := in.(ssa.CallInstruction)
+				return []esp.Ev{{ID: 0, Name: callName(call), ErrIdx: errIndex(call.Common().Signature()), BoolIdx: -1}}
+			}
+			r.Step = func(x *esp.Ctx, s esp.State, ev esp.Ev, ph esp.Phase) (esp.State, string) {
+				if ph == esp.Fail {
+					return s.Set(bFailed), ""
+				}
+				return s, ""
+			}
+			ei := errIndex(f.Signature)
+			r.AtReturn = func(x *esp.Ctx, s esp.State, rets []esp.Abs) string {
+				if rets[ei] != esp.NonZero && s.Has(bFailed) {
+					return "R13: the function may return a nil error although one of its fallible steps failed: the refusal of a nested encoder / decoder is lost and malformed bytes (or a partial value) are reported as success"
+				}
+				return ""
+			}
+			e := c.engine(r)
+			e.Run(f, esp.State{})
+			name := load.FuncName(f)
+			if c.reportEngine(e, "R13", func(v *esp.Violation) string { return name + ":failed step reported" }) == 0 {
+				c.S.OK("R13", name+":failed step reported", c.pos(f.Pos()), fmt.Sprintf("no nil return after a failed step (%d steps)", len(steps)), false)
+			}
+		}
+		c.S.Floor("R13", "fallible codec functions in eventlog / extract/eventlog", 15, nFn)
+		_ = nSteps
 	}
 
 	// ---------------- R12 whole-input decoders look at every input byte ----------------
@@ -1482,4 +1614,68 @@ func hasAffineRangeCheck(info *types.Info, fd *ast.FuncDecl, at ast.Node, src as
 func isZeroInt(v ssa.Value) bool {
 	k, ok := v.(*ssa.Const)
 	return ok && isZeroIntConst(k)
+}
+
+// errDiscarded: the error result of the call has no use at all (`x, _ := f()`, or a bare call statement).
+func errDiscarded(call ssa.CallInstruction) bool {
+	v := call.Value()
+	if v == nil {
+		return true
+	}
+	ei := errIndex(call.Common().Signature())
+	if _, isTuple := v.Type().(*types.Tuple); isTuple {
+		for _, r := range nonDebugRefs(v) {
+			if ex, ok := r.(*ssa.Extract); ok && ex.Index == ei && len(nonDebugRefs(ex)) > 0 {
+				return false
+			}
+		}
+		return true
+	}
+	return len(nonDebugRefs(v)) == 0
+}
+
+// fixedWidth: the constant length of a slice expression over an array or with constant bounds (x[:16], arr[:]); 0 if unknown.
+func fixedWidth(v ssa.Value) int64 {
+	sl, ok := v.(*ssa.Slice)
+	if !ok {
+		return 0
+	}
+	lo := int64(0)
+	if sl.Low != nil {
+		k, ok := constInt(sl.Low)
+		if !ok {
+			return 0
+		}
+		lo = k
+	}
+	if sl.High != nil {
+		k, ok := constInt(sl.High)
+		if !ok {
+			return 0
+		}
+		return k - lo
+	}
+	if pt, ok := sl.X.Type().Underlying().(*types.Pointer); ok {
+		if at, ok := pt.Elem().Underlying().(*types.Array); ok {
+			return at.Len() - lo
+		}
+	}
+	return 0
+}
+
+// inMemoryReader: the value is (an interface over) a *bytes.Buffer / *bytes.Reader / *strings.Reader.
+func inMemoryReader(v ssa.Value) bool {
+	for i := 0; i < 3; i++ {
+		switch x := v.(type) {
+		case *ssa.MakeInterface:
+			v = x.X
+		case *ssa.ChangeInterface:
+			v = x.X
+		}
+	}
+	switch v.Type().String() {
+	case "*bytes.Buffer", "*bytes.Reader", "*strings.Reader":
+		return true
+	}
+	return false
 }
